@@ -67,8 +67,10 @@ NARROW_DTYPES = {'uint8': 255, 'int8': 127, 'uint16': 65535, 'int16': 32767, 'in
 
 def _narrow_cases(rng, tier):
   reps = 1 if tier == 'quick' else 4
-  for n in NARROW_COUNTS:
+  for n in ([26, 128, 256, 300] if tier == 'quick' else NARROW_COUNTS):
     for dt, mx in NARROW_DTYPES.items():
+      if tier == 'quick' and dt in ('uint16', 'int64'):
+        continue
       top = min(n - 1, mx)
       picks = [0, top, max(top - 1, 0), rng.randrange(n if n - 1 <= mx else mx + 1)]
       # metrics with class scores: n classes
@@ -112,8 +114,11 @@ def _narrow_cases(rng, tier):
       yield case
       # PerDomainMetric with n domains, the domain id in the narrow dtype
       case = _one_case(rng, rng.choice(['Accuracy', 'SequenceTokenCount', 'SequenceLength', 'TopKAccuracy']), c=3, length=3)
-      case.pop('sweep', None)
+      while case.get('sweep'):
+        case = _one_case(rng, case['metric'], c=3, length=3)
       d = rng.choice([0, top, max(top - 1, 0)])
+      if mx < n - 1:
+        d = rng.choice([0, n - 257])        # an id whose wrapped twin id + 256 is still a domain: the wrap is visible
       case.update({'dom': [n, d], 'dkey': 'domain_id', 'narrow': n})
       case['form'].update({'ddtype': dt, 'arr': rng.choice(['jax', 'numpy']), 'extra': False})
       yield case
@@ -228,7 +233,7 @@ def _form(rng, case):
   if plain and not case.get('nonfinite') and case['metric'] not in CE_METRICS:
     pds += ['float16', 'bfloat16', 'int32']   # (cross-entropy values in half precision are legitimately coarse)
   return {'layout': rng.choice(['C', 'C', 'F', 'T', 'step2', 'neg', 'col', 'ro']), 'arr': rng.choice(['jax', 'numpy']), 'tdtype': rng.choice(tds), 'pdtype': rng.choice(pds),
-          'ctor': rng.choice(['kw', 'pos']), 'extra': rng.random() < 0.25}
+          'ctor': rng.choice(['kw', 'pos']), 'extra': rng.random() < 0.2}
 
 
 def _one_case(rng, metric, c=None, length=None):
@@ -321,7 +326,7 @@ def generate(tier, rng):
   if tier == 'thorough':
     for env in FLAG_SETTINGS:      # the harness's own quick cases in a fresh process under a non-default global flag
       yield {'kind': 'flags', 'env': env, 'seed': rng.randrange(1000), 'limit': 300}
-  per = {'quick': 85, 'thorough': 600, 'search': 900}.get(tier, 70)
+  per = {'quick': 62, 'thorough': 600, 'search': 900}.get(tier, 70)
   # structured corners first: k grid x ties for the top-k metrics, fully masked sequences
   for k in range(-7, 10):
     for c in (1, 2, 3, 5):
